@@ -22,6 +22,7 @@ class ParserSessionProp(object):
     fault_classes = ('none', 'inband', 'outofband')
     need_poplog = False
     replica_rate = {'quick': 0.0, 'thorough': 0.0}
+    fork_rate = {'quick': 0.03, 'thorough': 0.1}
     penalty_choices = (0.0, 0.1, 0.1, 1.0, 10.0, -0.5, -2.0)   # the repository accepts any float
     rich_tokens = False
     rule = ''
@@ -40,6 +41,7 @@ class ParserSessionProp(object):
             'beta': rng.choice([1e-5, 1e-5, 1e-7]),
             'pooled_bias': rng.choice([0.3, 0.6, 0.9]),
             'replica_rate': self.replica_rate.get(tier, 0.0),
+            'fork_rate': self.fork_rate.get(tier, 0.0),
             'step_cap': rng.choice([20000, 5000]),
             'step_cap_nbest': rng.choice([1500, 4000]),
         }
@@ -120,7 +122,9 @@ class ParserSessionProp(object):
             splits = math.ceil(len(batch) / max(processes, 1))
             n_tasks = math.ceil(len(batch) / splits)
             op['schedule'] = self.gen_schedule(rng, n_tasks, processes)
-            if rng.random() < knobs.get('replica_rate', 0.0):
+            if rng.random() < knobs.get('fork_rate', 0.0):
+                op['executor_mode'] = 'fork'     # the chunk really runs in a forked child process
+            elif rng.random() < knobs.get('replica_rate', 0.0):
                 # F6: the workers of this call are other interpreters under other string-hash seeds
                 op['executor_mode'] = 'replica'
                 op['schedule']['replica_seeds'] = [rng.choice([1, 2, 3]) for _ in range(processes)]
@@ -262,6 +266,8 @@ class ParserSessionProp(object):
         fault = op.get('fault') or {}
         if pooled and op.get('executor_mode') == 'replica':
             bump(stats, 'fault:F6_workers_under_other_hashseed')
+        if pooled and op.get('executor_mode') == 'fork':
+            bump(stats, 'probe:pooled_call_with_really_forked_workers')
         if pooled:
             order = rec.pool['completed_order']
             if order != sorted(order):
